@@ -109,7 +109,9 @@ Definition class_table : list (nat * string * list nat) := [
   (49, "HandleLeaveChat", []);
   (50, "HandleRejectChatInvite", []);
   (51, "HandleSetChatSubject", []);
-  (52, "HandleDownloadBanner", [])
+  (52, "HandleDownloadBanner", []);
+  (53, "HandleUploadFile", [1; 25]);        (* RESUMING a partial upload that lies outside upload / drop box folders *)
+  (54, "HandleUploadFile", [1])             (* resuming one inside an upload folder *)
 ]%nat.
 
 Definition governing (cls : N) : list nat :=
